@@ -67,8 +67,9 @@ func profile(name string) Profile {
 	case "C11":
 		w["fault"], w["repair"], w["control"], w["schema"], w["reopen"], w["closereopen"] = 16, 9, 9, 6, 8, 3
 		w["repairabandon"] = 6
+		w["rmctl"] = 4
 		w["many"], w["bulk"], w["or"], w["and"] = 2, 1, 1, 1
-		p.CfgMode = "syncany"
+		p.CfgMode = "syncany+async20"
 		p.Sweep = 45
 	case "C10":
 		p.CfgMode = "async"
@@ -867,6 +868,31 @@ func (e *Exec) GenOp(r *rand.Rand, p Profile) []string {
 			back = "vopen 5"
 		}
 		return append(out, "close", "dirhash", back, "count", "all", "dump", "fs")
+	case "rmctl":
+		// the file of a stored (flushed) object disappears; with or without other writes pending,
+		// Control must report it
+		u := e.pickLive(r)
+		if u == 0 {
+			return e.GenOp(r, p)
+		}
+		out := []string{}
+		if e.cfg.Async {
+			out = append(out, "flushall")
+		}
+		out = append(out, "count", fmt.Sprintf("rmfile %d", u))
+		if pct(r, 60) && !e.cfg.Async {
+			out = append(out, "ins "+genRec(r, e.cfg).String())
+		}
+		if e.cfg.Async && pct(r, 60) {
+			// another object is pending while Control runs (its write stays in the queue: a commit does not flush)
+			if v := e.pickLive(r); v != 0 && v != u {
+				if f, ok := e.spec.live[v]; ok && !e.spec.off {
+					f.U = v
+					return append(append([]string{"ins " + f.String()}, out...), "control")
+				}
+			}
+		}
+		return append(out, "control")
 	case "repairabandon":
 		// files removed and added from outside (any mix, also more removed than added), Repair,
 		// Control, a sweep; then the handle is ABANDONED and a new one opened: synchronous mode commits
